@@ -120,6 +120,16 @@ def process_function(res, rep, contract, repo, findings, opts):
     if rep.error:
         res.undecided.append({'function': rep.qual, 'why': rep.error})
         return
+    skip = tuple(opts.get('skip_kinds') or ())
+    if skip:
+        # this property is carried by a subset of the function's obligations (e.g. C07: exception freedom only); the others
+        # belong to the property that owns the functional contract and are reported there
+        dropped = [n for n in rep.obligations if any(k in n for k in skip)]
+        for n in dropped:
+            del rep.obligations[n]
+        rep.refuted = [r for r in rep.refuted if r['obligation'] not in dropped]
+        rep.undecided = [u for u in rep.undecided if u['obligation'] not in dropped]
+        res.extra.setdefault('obligations_owned_by_other_properties', []).extend(dropped)
     if not rep.obligations:
         res.crashes.append('%s generated zero obligations' % rep.qual)
         return
